@@ -50,6 +50,8 @@ def check_cache(
         # the cached value of a gate is the chosen TARGET: gates wrapping one routing
         # function with different (or exchanged) targets must not share an entry
         identity += ":" + ",".join(str(t) for t in node.targets)
+        # ... and the cached decision already includes the fallback taken for None
+        identity += f":fallback={getattr(node, 'fallback', None)}"
     cache_key = compute_cache_key(identity, node.map_inputs_to_params(inputs))
     if not cache_key:
         return "", None
